@@ -138,6 +138,12 @@ def run_case(case: dict) -> dict:
                 e["val"] = [lss.inquire_node_id()]
             elif name == "inquire_address":
                 e["val"] = B(struct.pack("<I", lss.inquire_lss_address(op["args"][0])))
+            elif name == "identify":
+                ids = op["ids"]
+                e["ids"] = [B(struct.pack("<I", x)) for x in ids]
+                lss.send_identify_remote_slave(*ids)
+            elif name == "identify_nc":
+                lss.send_identify_non_configured_remote_slave()
             elif name == "switch_selective":
                 ids = op["ids"]
                 e["ids"] = [B(struct.pack("<I", x)) for x in ids]
